@@ -10,6 +10,7 @@
 #include <cstring>
 #include <cxxabi.h>
 #include <exception>
+#include <functional>
 #include <stdexcept>
 #include <typeindex>
 #include <typeinfo>
@@ -287,6 +288,70 @@ namespace vf
          }
       }
       return out;
+   }
+
+   // normal form of a token string produced by canonical_type_name(): defaulted template arguments, which a compiler may or may
+   // not print (list / list_tail / list_must< R, S, void >, pad< R, P, P >), are removed
+   inline std::string normalise_defaulted_arguments( const std::string& canon )
+   {
+      std::vector< std::string > tok;
+      {
+         std::size_t i = 0;
+         while( i < canon.size() ) {
+            const std::size_t j = canon.find( ' ', i );
+            tok.push_back( canon.substr( i, j == std::string::npos ? std::string::npos : j - i ) );
+            if( j == std::string::npos ) {
+               break;
+            }
+            i = j + 1;
+         }
+      }
+      std::size_t pos = 0;
+      bool bad = false;
+      std::function< std::string() > parse = [ & ]() -> std::string {
+         if( pos >= tok.size() ) {
+            bad = true;
+            return "";
+         }
+         const std::string name = tok[ pos++ ];
+         if( pos >= tok.size() || tok[ pos ] != "<" ) {
+            return name;
+         }
+         ++pos;
+         std::vector< std::string > args;
+         while( pos < tok.size() && tok[ pos ] != ">" ) {
+            args.push_back( parse() );
+            if( pos < tok.size() && tok[ pos ] == "," ) {
+               ++pos;
+            }
+            if( bad ) {
+               return "";
+            }
+         }
+         if( pos >= tok.size() ) {
+            bad = true;
+            return "";
+         }
+         ++pos;
+         if( args.size() == 3 ) {
+            if( ( name == "list" || name == "list_tail" || name == "list_must" ) && args[ 2 ] == "void" ) {
+               args.pop_back();
+            }
+            else if( name == "pad" && args[ 2 ] == args[ 1 ] ) {
+               args.pop_back();
+            }
+         }
+         if( args.empty() ) {
+            return name + " < >";
+         }
+         std::string r = name + " <";
+         for( std::size_t k = 0; k < args.size(); ++k ) {
+            r += ( k ? " , " : " " ) + args[ k ];
+         }
+         return r + " >";
+      };
+      const std::string r = parse();
+      return ( bad || pos != tok.size() ) ? std::string() : r;
    }
 
    inline std::uint64_t tag_of_name( const std::string& tname )
